@@ -29,6 +29,7 @@ type defragStats struct {
 // bytesEventually: Bytes == shared pages in use + cached pages + private
 // mappings (none here), awaited because the refill goroutine may be in flight.
 func bytesEventually(a *memory.Allocator, lay Layout) *Fail {
+	t0 := time.Now()
 	for i := 0; ; i++ {
 		w := a.SharedMmaps.Load() * int64(lay.PageSize)
 		if ch := cacheChan(a); ch != nil {
@@ -38,7 +39,7 @@ func bytesEventually(a *memory.Allocator, lay Layout) *Fail {
 		if w == g {
 			return nil
 		}
-		if i > 600000 {
+		if time.Since(t0) > awaitBound {
 			return failf("bytes-counter", "Allocator.Bytes = %d, but shared pages in use (%d) + cached pages amount to %d", g, a.SharedMmaps.Load(), w)
 		}
 		if i < 1000 {
